@@ -115,6 +115,20 @@ func (s *sim) skipKnown(id string) bool {
 // previous commit proofs
 
 // basePCP builds the honest previous-commit proof a proposer of height h would use.
+// lateParent: predecessor and commit round of the block committed at h-1, for a header at the committing height h.
+func (s *sim) lateParent(h uint64, hash *[]byte, round *uint32) bool {
+	cur, ok := s.committedHeader(h)
+	if !ok {
+		return false
+	}
+	prev, ok := s.committedHeader(h - 1)
+	if !ok || string(prev.Header.Hash) != string(cur.Header.PrevBlockHash) {
+		return false
+	}
+	*hash, *round = prev.Header.Hash, prev.Proof.Round
+	return true
+}
+
 func (s *sim) basePCP(h uint64, parentHash string, parentRound uint32) (tmconsensus.CommitProof, vset) {
 	if h <= s.w.init {
 		return tmconsensus.CommitProof{Proofs: map[string][]gcrypto.SparseSignature{}}, s.w.genesis
@@ -366,6 +380,9 @@ func (s *sim) buildPH(op Op) builtPH {
 			parentHash = s.w.unknownHashes[1]
 		}
 		parentRound = s.cv.Round
+	case h == s.cv.Height && h > s.w.init && s.lateParent(h, &parentHash, &parentRound):
+		// a late proposal for the committing height builds on the block committed below it (the mirror
+		// turns down any other predecessor before it looks at the previous-commit proof)
 	case h == s.vv.Height+1:
 		// parent is a proposal of the voting height, preferably one the node holds in the voting round
 		parentRound = s.vv.Round
